@@ -103,6 +103,7 @@ type migGenCfg struct {
 	fenceTTL   int64
 	ownerTTL   int64
 	rogue      bool // allow Advance requests outside the executor workflow
+	abortW     int  // weight of operator aborts (0 = default 1)
 	nextTaskID *int
 }
 
@@ -177,7 +178,11 @@ func (e *executor) act(tp *simkit.Tape, ch chanRef, now int64, cfg migGenCfg) (m
 			return e.claimCmd(tp, ch, t, now, cfg), true
 		}
 	}
-	switch tp.Weighted([]int{24, 1, 2, 2, 2, 1, 1}) {
+	abortW := cfg.abortW
+	if abortW == 0 {
+		abortW = 1
+	}
+	switch tp.Weighted([]int{24, abortW, 2, 2, 2, 1, 1}) {
 	case 0:
 		return e.workflowCmd(tp, ch, t, v.meta, now, cfg), true
 	case 1:
